@@ -1712,34 +1712,48 @@ def c19_d(ctx):
                     out.add(b)
             return out
 
-        # the dispatch on the phase
         phase_field = "self.recv_state" if adt == RECV else "self.send_state"
-        sw = None
-        for b in f.live_blocks():
-            t = f.blocks[b]["term"]
-            if t["k"] == "switch":
-                e = eb.operand(t["discr"])
-                if e[0] == "discr" and expr_str(e[1]) == phase_field:
-                    sw = (b, t, ctx.prog.variant_names(e[1][2]) or {})
-        if sw is None:
-            yield undecided("C19-D", "%s::resume:dispatch" % nm, at(f), "no dispatch on %s found in resume" % phase_field)
-            continue
-        sb, st, names = sw
-        tgt = {names.get(v, str(v)): tb for v, tb in st["targets"]}
+        fl_ph = Flow(ctx.prog, ctx.mods, f, lambda k: k[0] == "val" and k[1] == phase_field)
+        line0 = f.line
+
+        def bypass_blocks(rb, region_start=0):
+            region = f.reachable(region_start)
+            can = {x for x in region if x in rb or (rb & f.reachable(x))}
+            out = set()
+            for x in can:
+                if x in rb:
+                    continue
+                for y, _l in f.succs(x):
+                    if y in region and y not in can:
+                        out.add(y)
+            return can, out
+
+        def phase_excluded(w, phases):
+            for k, (pos, vs) in w:
+                if k[0] == "val" and k[1] == phase_field:
+                    if pos and not (set(vs) & set(phases)):
+                        return True
+                    if not pos and set(phases) <= set(vs):
+                        return True
+            return False
+
         for (tn, phases), timers in RESUME_REARMS.items():
             if tn != nm:
                 continue
-            for ph in phases:
-                start = tgt.get(ph, st["otherwise"])
-                for which in timers:
+            for which in timers:
+                rb = rearm_blocks(which)
+                can, byp = bypass_blocks(rb)
+                for ph in phases:
                     n += 1
                     key = "%s::resume:%s:%s" % (nm, ph, which)
-                    rb = rearm_blocks(which)
-                    r = f.reachable(start, avoid=rb) if start not in rb else set()
-                    if any(f.blocks[x]["term"]["k"] == "return" for x in r):
-                        yield bad("C19-D", key, at(f, st["span"]["line"]), "in the %s phase a path through resume does not re-arm the %s timer (it stays paused): what that timer drives - the retransmission it guards, or the limit that ends the transaction - never happens after the resume" % (ph, which))
+                    if not rb or 0 not in can:
+                        yield bad("C19-D", key, at(f), "resume never re-arms the %s timer" % which)
+                        continue
+                    leak = [y for y in sorted(byp) if any(not phase_excluded(w, (ph,)) for w in fl_ph.at_term(y))]
+                    if leak:
+                        yield bad("C19-D", key, at(f, f.blocks[leak[0]]["term"]["span"]["line"]), "in the %s phase a path through resume does not re-arm the %s timer (it stays paused): what that timer drives - the retransmission it guards, or the limit that ends the transaction - never happens after the resume" % (ph, which))
                     else:
-                        yield ok("C19-D", key, at(f, st["span"]["line"]), "restart/reset_%s on every path" % which)
+                        yield ok("C19-D", key, at(f), "restart/reset_%s on every path of the phase" % which)
         if adt == RECV:
             # inactivity: always
             n += 1
@@ -1752,24 +1766,17 @@ def c19_d(ctx):
             # receive-data phase: NAK timer + list, skipped only when NAKs do not apply
             n += 1
             key = "RecvTransaction::resume:ReceiveData:nak"
-            start = tgt.get("ReceiveData", st["otherwise"])
             rb = rearm_blocks("nak")
-            region = f.reachable(start)
-            can_reach = {x for x in region if rb & f.reachable(x)}
-            if not rb or start not in can_reach:
-                yield bad("C19-D", key, at(f, st["span"]["line"]), "resume never re-arms the NAK timer in the receive-data phase")
+            can_reach, bypass = bypass_blocks(rb)
+            if not rb or 0 not in can_reach:
+                yield bad("C19-D", key, at(f), "resume never re-arms the NAK timer in the receive-data phase")
             else:
-                fl = Flow(ctx.prog, ctx.mods, f, lambda k: (k[0] == "val" and (k[1].endswith("transmission_mode") or k[1].endswith("nak_procedure"))) or (k[0] == "call" and k[1].split("::")[-1] == "eof_received"))
-                bypass = set()
-                for x in can_reach:
-                    if x in rb:
-                        continue
-                    for y, _l in f.succs(x):
-                        if y in region and y not in can_reach:
-                            bypass.add(y)
+                fl = Flow(ctx.prog, ctx.mods, f, lambda k: (k[0] == "val" and (k[1] == phase_field or k[1].endswith("transmission_mode") or k[1].endswith("nak_procedure"))) or (k[0] == "call" and k[1].split("::")[-1] == "eof_received"))
                 problems = []
                 for y in sorted(bypass):
                     for w in fl.at_term(y):
+                        if phase_excluded(w, ("ReceiveData",)):
+                            continue
                         d = dict(w)
                         mode = [v for k, v in d.items() if k[0] == "val" and k[1].endswith("transmission_mode")]
                         proc = [v for k, v in d.items() if k[0] == "val" and k[1].endswith("nak_procedure")]
@@ -1780,8 +1787,8 @@ def c19_d(ctx):
                         if not (not_ack or (deferred and no_eof)):
                             problems.append(world_str(w)[:160])
                 if problems:
-                    yield bad("C19-D", key, at(f, st["span"]["line"]), "in the receive-data phase resume skips re-arming the NAK timer and recomputing the NAK list on a path where NAKs apply (state %s): a receiver resumed with data still missing never asks for it again" % problems[0])
+                    yield bad("C19-D", key, at(f), "in the receive-data phase resume skips re-arming the NAK timer and recomputing the NAK list on a path where NAKs apply (state %s): a receiver resumed with data still missing never asks for it again" % problems[0])
                 else:
-                    yield ok("C19-D", key, at(f, st["span"]["line"]), "skipped only when not acknowledged, or deferred procedure before EOF")
+                    yield ok("C19-D", key, at(f), "skipped only when not acknowledged, or deferred procedure before EOF")
     if n == 0:
         raise Anchor("C19-D", "resume of the transactions")
